@@ -601,6 +601,11 @@ fn main() {
     if !missing.is_empty() {
         println!("note: pub parse functions without a registry entry: {:?}", missing);
     }
+    // the same check against the crate built with all cargo features (std, serialize, unstable)
+    let mut sink = sink;
+    if run.tier == Tier::Thorough {
+        run.all_features_variant(&mut sink);
+    }
     let code = run.finish(
         &sink,
         cov,
